@@ -68,9 +68,9 @@ fn fut_script(rng: &mut Rng, n: usize, is_try: bool, maxp: u64, err_pct: u64) ->
         s.ok = ok;
         s.fires = rand_fires(rng, n);
         steps.push(s);
-        ScriptS { steps, tail: "done".into(), tail_ok: ok }
+        ScriptS { steps, tail: "done".into(), tail_ok: ok, hint: 0 }
     } else {
-        ScriptS { steps, tail: "done".into(), tail_ok: ok }
+        ScriptS { steps, tail: "done".into(), tail_ok: ok, hint: 0 }
     }
 }
 
@@ -87,7 +87,9 @@ fn stream_script(rng: &mut Rng, n: usize, maxlen: u64, pend_pct: u64) -> ScriptS
         s.fires = rand_fires(rng, n);
         steps.push(s);
     }
-    ScriptS { steps, tail: "done".into(), tail_ok: true }
+    // every kind is a valid size hint for what the script will do (script.rs: SStream::size_hint)
+    let hint = if rng.chance(60) { 0 } else { 1 + rng.below(3) as u8 };
+    ScriptS { steps, tail: "done".into(), tail_ok: true, hint }
 }
 
 fn rand_cmds(rng: &mut Rng, nchildren: usize, len: u64, group: bool, nmembers: usize) -> Vec<Value> {
@@ -151,7 +153,7 @@ pub fn gen_vector(rng: &mut Rng, id: String, fam: &str, cont: &str, n: usize, pr
             stream_script(rng, nchildren, 4, 35)
         } else if fam == "wait_until" || fam == "wait_until_stream" {
             // filled below
-            ScriptS { steps: vec![], tail: "done".into(), tail_ok: true }
+            ScriptS { steps: vec![], tail: "done".into(), tail_ok: true, hint: 0 }
         } else if is_stream {
             let maxlen = if big { 2 } else { 5 };
             stream_script(rng, nchildren, maxlen, 35)
@@ -188,7 +190,7 @@ pub fn gen_vector(rng: &mut Rng, id: String, fam: &str, cont: &str, n: usize, pr
     if profile == "fair" && fam == "merge" && n > 0 {
         x = rng.below(n as u64) as i64;
         let len = 3 * n + 6;
-        scripts[x as usize] = ScriptS { steps: (0..len).map(|_| step("s")).collect(), tail: "done".into(), tail_ok: true };
+        scripts[x as usize] = ScriptS { steps: (0..len).map(|_| step("s")).collect(), tail: "done".into(), tail_ok: true, hint: 0 };
     }
     let mut cmds = match profile {
         "wakeonly" | "fair" => vec![],
